@@ -16,12 +16,15 @@ Theorem C20_tables_are_rfc :
                (0, 5, 10, 15, 8, 9); (1, 6, 11, 12, 10, 11); (2, 7, 8, 13, 12, 13); (3, 4, 9, 14, 14, 15) ]%nat /\
   PARAM_C = 0x01010000 /\ KEYSHIFT_C = 8 /\
   BLOCKBYTES_C = RFC_BB /\ KEYBLOCK_C = RFC_BB /\ INPUTWORDS_C = 16%nat /\
-  MAXKEY_C = 64 /\ MINDIG_C = 1 /\ MAXDIG_C = 64.
+  MAXKEY_C = 64 /\ MINDIG_C = 1 /\ MAXDIG_C = 64 /\
+  LOAD64_SHIFTS_C = [0; 8; 16; 24; 32; 40; 48; 56] /\ STORE64_SHIFTS_C = [0; 8; 16; 24; 32; 40; 48; 56] /\
+  STORE64_MASKS_C = [255] /\ ROTR_WIDTH_C = 64.
 Proof. exact tables_are_rfc. Qed.
 Print Assumptions C20_tables_are_rfc.
 
 (* the C compression function (wrapping +=, ~, rotr64, sigma[12][16]) is the RFC's F for every
-   chaining value, block, counter and flag *)
+   chaining value, block, counter and flag.  [m] is not required to have 16 words: both sides read a missing
+   word as 0; blake2b_impl only ever passes 16 words (input[] has INPUTWORDS_C = 16 entries and c_oob is proved false). *)
 Theorem C20_compress_is_rfc_F : forall h t m last, length h = 8%nat ->
   compress_c h (t mod W64) ((t / W64) mod W64) m last = rfc_F h m t last.
 Proof. exact compress_eq. Qed.
@@ -44,12 +47,26 @@ Theorem C20_lblake2b_conforms : forall msg digln key,
 Proof. exact lblake2b_correct. Qed.
 Print Assumptions C20_lblake2b_conforms.
 
-Theorem C20_lblake2b_rejects : forall msg digln key,
+(* argument checks.  Full statement (the documented domain: digest length 1..64, key up to 64 bytes; anything else
+   is an error): [lblake2b_rejects_full].  It is FALSE of the code today: `int digln = luaL_optinteger(...)` truncates
+   the Lua integer to a C int before the range test, so hasher.blake2b(m, 2^32+5) returns a 5-byte digest. *)
+Theorem C20_lblake2b_rejects_refuted : ~ lblake2b_rejects_full.
+Proof. exact lblake2b_rejects_refuted. Qed.
+Print Assumptions C20_lblake2b_rejects_refuted.
+
+(* restriction: digest lengths that fit a C int *)
+Theorem C20_lblake2b_rejects_partial : forall msg digln key,
   -2147483648 <= digln < 2147483648 ->
   (64 < length key)%nat \/ digln < 1 \/ 64 < digln ->
   lblake2b msg digln key = LErrKeySize \/ lblake2b msg digln key = LErrDigestSize.
 Proof. exact lblake2b_rejects. Qed.
-Print Assumptions C20_lblake2b_rejects.
+Print Assumptions C20_lblake2b_rejects_partial.
+
+(* hasher.blake2b(m) with the default digest length (scraped from luaL_optinteger's default) *)
+Theorem C20_lblake2b_default : forall msg, Forall is_byte msg ->
+  lblake2b_default msg = LOk (blake2b_rfc 64 [] msg).
+Proof. exact lblake2b_default_ok. Qed.
+Print Assumptions C20_lblake2b_default.
 
 Theorem C20_digest_length : forall nn key msg, 0 <= nn <= 64 ->
   length (blake2b_rfc nn key msg) = Z.to_nat nn.
@@ -65,6 +82,17 @@ Theorem C20_blake2b_streaming : forall nn key chunks,
 Proof. exact streaming_from_init. Qed.
 Print Assumptions C20_blake2b_streaming.
 
+(* the 128-bit counter: a context whose counter words hold i*128 (as after i compressed blocks; t0 = low word,
+   t1 = high word) continues exactly as the RFC's loop entered at block index i, whatever the chunking - in
+   particular when t0 wraps and the carry goes into t1 (Example counter_carry_instance: i = 2^57 - 1).
+   [blake2b_rfc_from 0 = blake2b_rfc] by definition. *)
+Theorem C20_blake2b_counter_carry : forall nn key i chunks,
+  1 <= nn <= 64 -> (length key <= 64)%nat -> Forall is_byte key -> Forall (Forall is_byte) chunks -> 0 <= i ->
+  blake2b_stream nn key ((i * 128) mod W64) ((i * 128 / W64) mod W64) chunks
+  = Some (blake2b_rfc_from i nn key (concat chunks)).
+Proof. exact blake2b_stream_correct. Qed.
+Print Assumptions C20_blake2b_counter_carry.
+
 (* ------------------------------------------------------------------------------------------ *)
 (* Base58                                                                                       *)
 (* ------------------------------------------------------------------------------------------ *)
@@ -77,7 +105,8 @@ Theorem C20_b58_tables_are_bitcoin :
   forallb (fun c => nth (Z.to_nat c) B58_MAP_C (-1) =? match index_of c BITCOIN_ALPHABET 0 with Some d => d | None => -1 end)
           (map Z.of_nat (seq 0 128)) = true /\
   B58_ENC_MUL = 256 /\ B58_ENC_BASE = 58 /\ B58_DEC_BASE = 58 /\
-  B58_DEC_CARRYMASK = 0x3f00000000 /\ B58_DEC_CARRYSHIFT = 32 /\ B58_DEC_LIMBMASK = 0xffffffff.
+  B58_DEC_CARRYMASK = 0x3f00000000 /\ B58_DEC_CARRYSHIFT = 32 /\ B58_DEC_LIMBMASK = 0xffffffff /\
+  B58_PAD_ENC_C = b58_char 0 /\ B58_PAD_DEC_C = b58_char 0 /\ B58_HIGHBIT_C = 128.
 Proof. exact b58_tables_are_bitcoin. Qed.
 Print Assumptions C20_b58_tables_are_bitcoin.
 
